@@ -143,7 +143,13 @@ def stepClauses (op : String) (_j : Json) (pre post : Core) (msgs : List Json) :
     -- announced only when the shim confirms the swap, but the node is chosen and charged now). A replacement on the
     -- placeholder's own node is not a new bind: the property does not list it.
     fun _ => if op != "schedule" then none else
-      let announced : List (String × String × String) := newAllocs.map (fun m => (s m "key", s m "app", s m "node"))
+      -- (an allocation the RM itself places inside the decision/confirmation window — scripted scenarios only — is
+      --  announced in the same line but is not a decision of the scheduler)
+      let rmPlacedNow : String := match _j.getObjVal? "interrupt" with
+        | .ok ij => if s ij "op" == "alloc" && s ij "node" != "" then s ij "key" else ""
+        | .error _ => ""
+      let announced : List (String × String × String) :=
+        (newAllocs.filter (fun m => rmPlacedNow == "" || s m "key" != rmPlacedNow)).map (fun m => (s m "key", s m "app", s m "node"))
       let swapped : List (String × String × String) := (post.apps.map (fun a => a.items.filterMap (fun i =>
           if !i.inflightReal then none else
           match (pre.findApp a.id).bind (fun pa => pa.items.find? (·.key == i.key)) with
